@@ -63,7 +63,7 @@ example : (transform Cfg.fixed 8 [.vis hideDog] s0 h0).isSome = true ∧ closedB
     only shrink. In particular a type / field / argument the visitor "returns unchanged" is preserved. -/
 theorem visitor_keeps_existing_objects (cfg : Cfg) (fuel : Nat) (v : Visitor) (s : Schema) (h h' : Heap) (s' : Schema)
     (e : onSchema cfg fuel v s h = some (h', s')) :
-    ∀ a o, h.read a = some o → ∃ o', h'.read a = some o' ∧ SameHead o o' ∧ ∀ c, c ∈ kids o' → c ∈ kids o := by
+    ∀ a o, h.read a = some o → ∃ o', h'.read a = some o' ∧ SameHead o o' ∧ List.Sublist (kids o') (kids o) := by
   intro a o hr
   obtain ⟨o', hr', hd, hk, _⟩ := onSchema_stepT cfg fuel v s h h' s' e a o hr
   exact ⟨o', hr', hd, hk⟩
